@@ -60,9 +60,14 @@ CLAIMED = {
    text="Coq theorems (C11.v): a paused set (annotation value exactly \"true\") makes the reconcile the identity — no call at all, success, API state "
         "unchanged — for every API state, cache and fault oracle; a set with a deletion timestamp issues no pod/claim create, delete, update or "
         "patch and adopts no ControllerRevision (lifted through the program logic from the planner and the claim/adoption phases). "
-        "Differential run on snapshots with either flag raised (projection: all writes) + monitor.",
-   note="As C03. Losslessness of a pause over histories follows from statelessness + identity; the resume-and-converge part is C02's.",
-   technique="Coq proof (paused reconcile = identity; deleting-set call restrictions for all oracles) + differential correspondence + monitor",
+        "LOSSLESSNESS over histories of the environment model (PauseProofs.v; reconciles with any fault oracle, kubelet events, cache refreshes, edits): every "
+        "reconcile that runs while the cached set carries the annotation can be struck from the history — API state and caches evolve as if it had never been "
+        "scheduled — whatever precedes and follows the window (C11_pause_window_is_lossless), and it logs nothing. "
+        "Differential run on snapshots with either flag raised (projection: all writes) + monitor; event-driven pause family on the real controller "
+        "(edit while paused, un-pause, then only the controller's own informer handlers and work queue run: no write while paused, convergence afterwards).",
+   note="As C03. The resume-and-converge part after the window is C02's (proved from regular worlds, monitored elsewhere).",
+   technique="Coq proof (paused reconcile = identity; pause window can be struck from any history of the environment model; deleting-set call restrictions "
+             "for all oracles) + differential correspondence + monitors (snapshots and event-driven pause/un-pause histories)",
    ref="6 C11"),
  "C12": dict(
    text="Coq theorems (C12.v) for every status write of every reconcile (all API states, caches, oracles): written against the cached resourceVersion "
